@@ -108,6 +108,8 @@ def _post_project(self, pt, result):
             if not _nonempty(lo, hi):
                 return True
             r = np.asarray(result, dtype=float)
+            if r.ndim == 2 and r.shape[0] == 1 and np.ndim(pt) == 2:
+                r = r[0]  # a point given as a (1, d) row slice comes back in the same form
             return r.shape == lo.shape and bool(np.all(lo <= r) and np.all(r <= hi))
         except Exception:
             return False
@@ -324,6 +326,12 @@ def as_kind(kind, vals, sent=None):
         if sent is not None:
             sent.watch("owner_of_row", base, "caller_array", transient=True)
         return base[1]
+    if kind == "row_slice":
+        # one point of a point array taken as P[i:i+1]: a (1, d) array holding the d coordinates
+        base = np.array([[0.5] * len(vals), vals, [-0.25] * len(vals)], dtype=float)
+        if sent is not None:
+            sent.watch("owner_of_row", base, "caller_array", transient=True)
+        return base[1:2]
     if kind == "strided":
         base = np.zeros(2 * len(vals), dtype=float)
         base[::2] = vals
@@ -530,9 +538,10 @@ def run_aabb(desc, ctx):
     for b, lo, hi in boxes:
         for where in rng.sample(["inside", "face", "corner_lo", "corner_hi", "out1", "outall", "far"], 4):
             p = _gen_point(rng, lo, hi, mag, where)
-            kind = rng.choice(KINDS)
+            kind = rng.choice(KINDS + ("row_slice",))
             p_in = as_kind(kind, p, sent)
             ctx.cls("point:" + where)
+            ctx.cls("point_kind:" + kind)
             _check_point_laws(ctx, sent, b, lo, hi, p_in, rng, sample_slot)
         # wrong dimension / unknown norm: must raise or not, never a side effect
         if rng.random() < 0.3:
